@@ -23,10 +23,12 @@ subproject('sub')
     'subprojects/sub/meson.build': "project('sub')\nmessage('VOPT|sub_wl|' + get_option('warning_level') + '|END')\nmessage('VOPT|sub_y|' + get_option('y') + '|END')\n",
     'subprojects/sub/meson.options': "option('y', type: 'string', value: 'ydef')\n",
 }
+NF_INI = "[project options]\nx = 'nat'\nc = 'b'\n\n[sub:project options]\ny = 'ynat'\n\n[sub:built-in options]\nwarning_level = '2'\n"
+PROJECT['nf.ini'] = NF_INI
 CPROJECT = {
     'meson.build': PROJECT['meson.build'].replace("project('crash',", "project('crash', 'c',") + "executable('e', 'e.c')\nstatic_library('l', 'l.c')\n",
     'meson.options': PROJECT['meson.options'],
-    'e.c': 'int main(void) { return 0; }\n', 'l.c': 'int l(void) { return 0; }\n',
+    'e.c': 'int main(void) { return 0; }\n', 'l.c': 'int l(void) { return 0; }\n', 'nf.ini': NF_INI,
     'subprojects/sub/meson.build': PROJECT['subprojects/sub/meson.build'],
     'subprojects/sub/meson.options': PROJECT['subprojects/sub/meson.options'],
 }
@@ -36,6 +38,8 @@ HISTORIES = {
     'fresh': [],
     'configured': [['setup', 'B', '-Dx=old', '-Dsub:warning_level=3', '-Dsub:y=yold']],
     'configured+configure': [['setup', 'B', '-Dx=old', '-Dsub:warning_level=3', '-Dsub:y=yold'], ['configure', 'B', '-Dc=b']],
+    # values that live in coredata.dat only (a machine file is read when the directory is first configured)
+    'native-file': [['setup', 'B', '--native-file', 'NF']],
     'failed-reconfigure': [['setup', 'B', '-Dx=old', '-Dsub:warning_level=3', '-Dsub:y=yold'], ['setup', '--reconfigure', 'B', '-Dboom=true'], ['configure', 'B', '-Dboom=false']],
 }
 # commands under test: name -> (argv, {option: set of allowed values after recovery, given the value before})
@@ -47,7 +51,7 @@ COMMANDS = {
     'configure-U': (['configure', 'B', '-Usub:warning_level'], {'sub_wl': '1'}),
     'configure-D-sub': (['configure', 'B', '-Dsub:y=ynew'], {'sub_y': 'ynew'}),
 }
-PAIRS = [('fresh', 'setup-fresh')] + [(h, c) for h in ('configured', 'configured+configure', 'failed-reconfigure') for c in ('reconfigure-D', 'wipe', 'configure-D', 'configure-U', 'configure-D-sub')]
+PAIRS = [('fresh', 'setup-fresh')] + [(h, c) for h in ('configured', 'configured+configure', 'failed-reconfigure', 'native-file') for c in ('reconfigure-D', 'wipe', 'configure-D', 'configure-U', 'configure-D-sub')]
 
 _server = None
 _states = {}
@@ -75,7 +79,7 @@ def prepare(root, proj, backend, history):
     env = mp.base_env(home=os.path.join(root, 'home'))
     vals = {}
     for argv in HISTORIES[history]:
-        a = [bdir if x == 'B' else x for x in argv]
+        a = [bdir if x == 'B' else os.path.join(src, 'nf.ini') if x == 'NF' else x for x in argv]
         if a[0] == 'setup' and '--reconfigure' not in a:
             a = a[:2] + [src] + a[2:] + ['--backend=' + backend]
         r = mp.run_meson(a, src, env=env)
